@@ -464,7 +464,7 @@ pub fn run_case(ctx: &Ctx, prof: &Profile, case: u64, verbose: bool) -> CaseOut 
     let mut conn = Conn::new(stack.memc.clone(), limit);
     let mut m = Model::new(keys.len(), t0);
     let mut texts = ErrTexts::default();
-    let len = rng.gen_range(prof.len.0..=prof.len.1);
+    let len = if cfg!(miri) { 25 } else { rng.gen_range(prof.len.0..=prof.len.1) };
     let mut out = CaseOut {
         viol: None,
         trace: vec![format!("case {} seed {:#x} limit {} store {:?} t0 {} sweep {:?} keys {:?}", case, seed, limit, kind, t0, sweep_mode, keys.iter().map(|k| wire::short(k)).collect::<Vec<_>>())],
@@ -584,7 +584,7 @@ pub fn run(ctx: &Ctx) -> i32 {
         }
         return ev.finish();
     }
-    let ncases = ctx.n(20000, 200000);
+    let ncases = if cfg!(miri) { ctx.extra.get("miri-cases").and_then(|s| s.parse().ok()).unwrap_or(4) } else { ctx.n(20000, 200000) };
     let next = AtomicU64::new(0);
     let shared = Mutex::new(ev);
     let deadline = if ctx.budget_s > 0 { Some(std::time::Instant::now() + std::time::Duration::from_secs(ctx.budget_s)) } else { None };
